@@ -50,9 +50,12 @@ Definition check (c : c19case) : N :=
     (* proved bounds (C19_memo_bound) and a cubic bound on the field comparisons *)
     if F * F <? frb then 2
     else if 2 * sets * (F + 1) <? ffb then 2
-    else if size * size * size + 100 <? ctr_at 2 ctr then 2
+    (* C19_find_conflict_bound: calls <= M*M*(visited sets + memo entries) *)
+    else if (let m := N.of_nat (max_set_size S0 D) in
+             m * m * (N.of_nat (List.length (all_sets S0 D)) + ffb + 2 * frb)) <? ctr_at 2 ctr then 2
     else if negb (frb =? N.of_nat (frfr_bodies S0 D fuel)) then 1
     else if negb (ffb =? N.of_nat (ff_bodies S0 D fuel)) then 1
+    else if negb (ctr_at 2 ctr =? N.of_nat (fc_calls S0 D fuel)) then 1
     else 0
   | PlanCase S0 W ctr =>
     let D := erase W in
